@@ -745,7 +745,9 @@ macro_rules! declare_storage_n {
 
                 #[inline(always)]
                 fn resolve_direct(&self, entity: EntityDirect<A>) -> Option<EntityDirect<A>> {
-                    Some(entity) // Trivially return, as we're already an EntityDirect
+                    // We're already an EntityDirect, but only hand it back if it is still valid.
+                    $name::resolve_direct(self, entity)?;
+                    Some(entity)
                 }
 
                 #[inline]
